@@ -364,4 +364,127 @@ theorem count_stat_rows (r : StatRec) : countWhere isCpuNLine (statLines r) = r.
   rw [h1, h2, h3]
   omega
 
+/-! ### /proc/cpuinfo as the kernel prints it -/
+
+theorem lower_append (a b : Bytes) : lower (a ++ b) = lower a ++ lower b := by simp [lower]
+
+theorem pad3_no (m c : Nat) (hc : c < 48) : c ∉ pad3 m := by
+  intro h
+  simp only [pad3, List.mem_cons, List.not_mem_nil, or_false] at h
+  omega
+
+theorem blockLines_no_nl (b : CpuBlock) : ∀ l ∈ blockLines b, 10 ∉ l := by
+  intro l hl
+  simp only [blockLines, List.mem_cons, List.not_mem_nil, or_false] at hl
+  rcases hl with rfl | rfl | rfl | rfl | rfl | rfl
+  · intro h; simp only [List.mem_append, tabColon] at h
+    rcases h with (h | h) | h
+    · simp at h
+    · simp at h
+    · exact renderDec_not_mem _ 10 (by decide) h
+  · decide
+  · intro h; simp only [List.mem_append, tabColon] at h
+    rcases h with ((((h | h) | h) | h) | h) | h
+    · simp at h
+    · simp at h
+    · simp at h
+    · exact renderDec_not_mem _ 10 (by decide) h
+    · simp at h
+    · exact pad3_no _ 10 (by decide) h
+  · intro h; simp only [List.mem_append, tabColon] at h
+    rcases h with (h | h) | h
+    · simp at h
+    · simp at h
+    · exact renderDec_not_mem _ 10 (by decide) h
+  · intro h; simp only [List.mem_append, tabColon] at h
+    rcases h with (h | h) | h
+    · simp at h
+    · simp at h
+    · exact renderDec_not_mem _ 10 (by decide) h
+  · simp
+
+theorem linesOf_renderCpuinfo (bs : List CpuBlock) : linesOf (renderCpuinfo bs) = bs.flatMap blockLines := by
+  unfold renderCpuinfo
+  apply linesOf_unlines
+  intro l hl
+  rw [List.mem_flatMap] at hl
+  obtain ⟨b, _, hb⟩ := hl
+  exact blockLines_no_nl b l hb
+
+theorem parseDec_pad3 (m : Nat) (h : m < 1000) : parseDec? (pad3 m) = some m := by
+  unfold parseDec? parseRadix? pad3
+  simp only [parseRadixAux, decimal]
+  have a1 : 48 ≤ 48 + m / 100 % 10 ∧ 48 + m / 100 % 10 ≤ 57 := by omega
+  have a2 : 48 ≤ 48 + m / 10 % 10 ∧ 48 + m / 10 % 10 ≤ 57 := by omega
+  have a3 : 48 ≤ 48 + m % 10 ∧ 48 + m % 10 ≤ 57 := by omega
+  simp only [a1, a2, a3, and_self, if_true, Option.some.injEq]
+  omega
+
+theorem pyFloat_mhz (n m : Nat) (h : m < 1000) :
+    pyFloat? (32 :: (renderDec n ++ [46] ++ pad3 m)) = some ((n : Rat) + (m : Rat) / 1000) := by
+  have hnw : NoWs (renderDec n ++ [46] ++ pad3 m) := by
+    intro c hc
+    simp only [List.mem_append, List.mem_singleton] at hc
+    rcases hc with (hc | hc) | hc
+    · exact renderDec_noWs n c hc
+    · subst hc; decide
+    · simp only [pad3, List.mem_cons, List.not_mem_nil, or_false] at hc
+      simp only [isWs, Bool.or_eq_false_iff, beq_eq_false_iff_ne, Bool.and_eq_false_iff, decide_eq_false_iff_not]
+      omega
+  have hs : stripWs (32 :: (renderDec n ++ [46] ++ pad3 m)) = renderDec n ++ [46] ++ pad3 m := by
+    unfold stripWs
+    have : lstripWs (32 :: (renderDec n ++ [46] ++ pad3 m)) = lstripWs (renderDec n ++ [46] ++ pad3 m) := by
+      simp [lstripWs, isWs]
+    rw [this, lstripWs_noWs _ hnw]
+    unfold rstripWs
+    rw [lstripWs_noWs _ (noWs_reverse _ hnw)]
+    simp
+  unfold pyFloat?
+  rw [hs]
+  obtain ⟨c, cs, hcs, hd⟩ := renderDec_cons n
+  have h45 : c ≠ 45 := by intro e; subst e; simp [isDigit] at hd
+  have h43 : c ≠ 43 := by intro e; subst e; simp [isDigit] at hd
+  have hu : pyFloatU? (renderDec n ++ [46] ++ pad3 m) = some ((n : Rat) + (m : Rat) / 1000) := by
+    unfold pyFloatU?
+    have hsplit : splitOn 46 (renderDec n ++ [46] ++ pad3 m) = [renderDec n, pad3 m] := by
+      rw [List.append_assoc, List.singleton_append, splitOn_append 46 _ _ (renderDec_not_mem n 46 (by decide)),
+        splitOn_noSep 46 _ (pad3_no m 46 (by decide))]
+    rw [hsplit]
+    have hne : renderDec n ≠ [] := renderDec_ne_nil n
+    have hp3 : pad3 m ≠ [] := by simp [pad3]
+    simp only [hne, false_and, if_false, decOrZero?, hp3, parseDec_renderDec, parseDec_pad3 m h]
+    simp [pad3]
+  rw [hcs] at hu ⊢
+  simp only [List.cons_append] at hu ⊢
+  split
+  · rename_i ds heq; cases heq; exact absurd rfl h45
+  · rename_i ds heq; cases heq; exact absurd rfl h43
+  · exact hu
+
+theorem cpuinfoFreqLines_blocks (bs : List CpuBlock) (h : ∀ b ∈ bs, b.mhzMilli < 1000) :
+    cpuinfoFreqLines (bs.flatMap blockLines) = .ok (bs.map blockMhz) := by
+  induction bs with
+  | nil => rfl
+  | cons b bs ih =>
+    have ih' := ih (fun x hx => h x (by simp [hx]))
+    have hm := h b (by simp)
+    simp only [List.flatMap_cons, List.map_cons, blockLines, List.cons_append, List.nil_append]
+    have hv := pyFloat_mhz b.mhzInt b.mhzMilli hm
+    simp only [cpuinfoFreqLines, lower_append, tabColon]
+    simp [lower, kCpuMhz, List.isPrefixOf, afterColon] 
+    have hv' : pyFloat? (32 :: (renderDec b.mhzInt ++ 46 :: pad3 b.mhzMilli))
+        = some ((b.mhzInt : Rat) + (b.mhzMilli : Rat) / 1000) := by simpa using hv
+    simp [hv', ih', blockMhz]
+
+theorem count_processor_blocks (bs : List CpuBlock) :
+    countWhere (fun l => kProcessor.isPrefixOf (lower l)) (bs.flatMap blockLines) = bs.length := by
+  induction bs with
+  | nil => rfl
+  | cons b bs ih =>
+    simp only [List.flatMap_cons, countWhere_append, ih, List.length_cons]
+    have : countWhere (fun l => kProcessor.isPrefixOf (lower l)) (blockLines b) = 1 := by
+      simp only [blockLines, countWhere, lower_append, tabColon]
+      simp [lower, kProcessor, List.isPrefixOf, List.filter]
+    omega
+
 end Psutil.C19
